@@ -163,7 +163,7 @@ def dir_cases(tier, seed):
             for auto in ((True, False) if rng.random() < 0.5 else (True,)):
                 cases.append({"path": p, "abs": {"segs": sg, "nul": nulpos >= 0}, "ae": hdr, "abs_ae": abs_ae, "auto_gzip": auto})
     # every Accept-Encoding x auto_gzip on the names with .gz siblings / .gz directories
-    for p in ["a.gz", "sub/c.gz", "a.gz.gz", "sub/c.gz.gz", "a", "b", "sub/a", "sub/c", "...", "sub/", "sub", "", ".", "a.", "sub/...", "sub/a..", "a..", "x", "b.gz", "b.gz/x"]:
+    for p in ["a.gz", "sub/c.gz", "a.gz.gz", "sub/c.gz.gz", "a", "b", "sub/a", "sub/c", "...", "sub/", "sub", "", ".", "a.", "sub/...", "sub/a..", "a..", "x", "b.gz", "b.gz/x", "dev", "dev.gz", "dev/"]:
         for hdr, abs_ae in AE:
             for auto in (True, False):
                 cases.append({"path": p, "abs": {"segs": p.split("/"), "nul": False}, "ae": hdr, "abs_ae": abs_ae, "auto_gzip": auto})
